@@ -297,7 +297,8 @@ RULE_ADD = {
     "C13": "Probes include the comparer's Separator of every adjacent stored pair and the Successor of the last key (the non-stored keys the writer puts into the index block); FindKey (filtered and not) is held to the same oracle as Find.",
     "C14": "Up to three long-lived iterators are moved between Puts and Deletes: First/Last/Seek answer from the current contents, Prev from the key the iterator stands on, Next from its successor link (re-seek instead of Next when the pair it stands on was deleted).",
     "C17": "Keys and namespaces are small, have the top bit set on every other one, or are scattered over all 64 bits; Gets go through Cache.Get, NamespaceGetter.Get or a lookup-only Get with a nil constructor.",
-    "C19": "A third of the cases keep an iterator open over the last steps of the history and release it immediately before Close; 30% delay table removal by 300 us; the settled-state premise (storage listing = live files) is checked before Close.",
+    "C18": "In the racing scene Close is stretched (closing the journal and manifest files takes 250 us each) so that readers meet every intermediate state of the shutdown; Has is judged like Get.",
+    "C19": "A fifth of the histories end inside a transaction that has flushed tables of its own and is still open when the DB is closed (Close discards it; none of its writes may be recovered); a quarter end with an idle reopen followed by a few small writes, and a third write and reopen right after Recover. A third of the cases keep an iterator open over the last steps of the history and release it immediately before Close; 30% delay table removal by 300 us; the settled-state premise (storage listing = live files) is checked before Close.",
     "C20": "Every argument is a slice of a larger buffer whose spare capacity holds other bytes; the argument and the bytes behind it must be intact after the call (Put, Delete, Get, Has, Seek, SizeOf on DB, snapshot and transaction).",
 }
 for _k, _v in RULE_ADD.items():
